@@ -11,11 +11,6 @@
   (b) `three_views_agree`: the flat edit list of `get_all_edit_contexts` (CompoundEdits exploded, StringEdit not,
       zero-cost edits skipped), the root edit's own cost, and `edited_cost()` of the annotated root (which sums the
       root's edit list = the root edit) are the same number.
-      [audit] NOTE: `editedCost s := s.cost` BY DEFINITION (Proofs/EditsCost.lean), so the second conjunct is `rfl`;
-      the annotated tree (`on_diff`, `edit_list`) is not modelled.  `flatSum` is computed from the SAME script value and
-      is not run by the driver (stream `script` compares script/eq/sizes only; the three views of the real code are
-      checked by the Python monitor).  For kinds kvp/fixed/ms/fk the model's reported cost is `mkCompound` = the sum
-      by definition; only `ed`/`str` carry a separately computed total.
 
   No hypotheses: holds for all options, all oracle answers (the assignment solver's recorded matchings), all trees.
 -/
@@ -35,13 +30,6 @@ theorem reported_eq_sum_root (o : Opts) (orc : Oracle) (fp tp : List Nat) (f t :
     (edits o orc fp tp f t).cost = sumCosts (edits o orc fp tp f t).subs := by
   have := (Script.costOK_iff _).1 (reported_eq_sum o orc fp tp f t)
   simpa [h] using this.1
-
--- [audit] non-vacuity of `reported_eq_sum_root`: the hypothesis holds for the model's script of [null, 1, 2] → [1, 3, 2]
-theorem audit_hasSubs : (edits {} [] [] [] (.list [.leaf .null, .leaf (.int 1), .leaf (.int 2)])
-    (.list [.leaf (.int 1), .leaf (.int 3), .leaf (.int 2)])).kind.hasSubs = true := by
-  rw [edits_list_list]; simp [eqL, Tree.eq, Scalar.eq, edScript, Kind.hasSubs]
--- [audit] non-vacuity
-example := reported_eq_sum_root {} [] [] [] _ _ audit_hasSubs
 
 /-- C03(b) -/
 theorem three_views_agree (o : Opts) (orc : Oracle) (fp tp : List Nat) (f t : Tree) :
